@@ -389,6 +389,13 @@ def m_type(r, depth, avail, allow_any=True, asd=False) -> MT:
                 return t
     k = r.choice(["List", "Set", "Dict", "Tuple", "Union", "Optional", "List", "Optional", "Tuple0", "Map", "Map", "Counter", "ChainMap", "TupleVar",
                   "Seq", "FrozenSet", "Ann", "Ann"])
+    # (fcaa28c) a strategy registered under an ORIGIN class applies to every parametrisation of it: the model keys TList by
+    # "list" and TDict / TMap by "dict", so in a class that registers list / dict these schemas are spelled List[..] / Dict[..]
+    # only (Sequence, Deque, Tuple[T, ...], Mapping, OrderedDict, Counter, ChainMap have other origins)
+    if "list" in _CUR_OVER and k in ("TupleVar", "Seq", "ChainMap"):
+        k = "List"
+    if "dict" in _CUR_OVER and k in ("Counter", "ChainMap"):
+        k = "Map"
     if k in ("Map", "Counter", "ChainMap"):
         kt = m_scalar(r)
         while not kt.hashable or kt.py == "Any":
@@ -398,7 +405,7 @@ def m_type(r, depth, avail, allow_any=True, asd=False) -> MT:
             #  it keeps "additionalProperties": {} -- that corner is not in the model, so no Counter in a class that overrides int)
             return MT(f"Counter[{kt.py}]", f"TMap ({kt.coq}) TInt", None, False, (), dom=kt.dom)
         a = m_type(r, depth - 1, avail, asd=asd)
-        name = r.choice(["Dict", "Mapping", "OrderedDict", "DefaultDict", "MutableMapping"])
+        name = r.choice(["Dict", "Mapping", "OrderedDict", "DefaultDict", "MutableMapping"]) if "dict" not in _CUR_OVER else "Dict"
         if k == "ChainMap":
             return MT(f"ChainMap[{kt.py}, {a.py}]", f"TList (TMap ({kt.coq}) ({a.coq}))", None, False, a.classes, dom=kt.dom and a.dom)
         return MT(f"{name}[{kt.py}, {a.py}]", f"TMap ({kt.coq}) ({a.coq})", None, False, a.classes, dom=kt.dom and a.dom)
@@ -482,12 +489,13 @@ COQKEY = {"int": "TInt", "float": "TFloat", "bool": "TBool", "Pt": 'TOpaque "Pt"
 
 def keys_of(coq_term: str) -> set:
     ks = {k for k, c in COQKEY.items() if c in coq_term} | ({"str"} if "TStr" in coq_term else set())
+    ks |= ({"list"} if "TList" in coq_term else set()) | ({"dict"} if ("TDict" in coq_term or "TMap" in coq_term) else set())
     if "TEnum true" in coq_term:      # the serializer applies a strategy to a Literal member by the member's own type
         ks |= ({"int"} if "JInt" in coq_term else set()) | ({"bool"} if "JBool" in coq_term else set())
     return ks
 
 
-def m_tables(r):
+def m_tables(r, origin_ok=True):
     """Config.dialect / Config.serialization_strategy of one class: (python lines for the dialect class body, python dict text for
     Config, Coq dial table, Coq conf table, overridden keys, keys with a serializing override).  "str" is never overridden (it is
     the implicit key type of Dict[str, .]); a replacement type never carries an overridden key (no chains: domain of the clause)."""
@@ -510,12 +518,14 @@ def m_tables(r):
                 tab[k] = ('{"deserialize": ser_any}', "ODeser")
             else:
                 tab[k] = ('{"serialize": ser_any}', "ORet None")
-    # registrations under the ORIGIN class of a parametrised type: Instance.get_overridden_serialization_method looks a strategy up
-    # under instance.type only (List[int], never list), so the schema ignores them; the model has no key for container types
-    for k in r.sample(["list", "dict"], r.choice([0, 0, 1, 2])):
-        tab = r.choice([dial, conf])
-        tab[k] = r.choice([('{"serialize": ser_str, "deserialize": ser_any}', "ORet (Some TStr)"), ("pass_through", "OPass"),
-                           ('{"serialize": ser_any}', "ORet None")])
+    # registrations under the ORIGIN class of a parametrised type: since /repo fcaa28c get_overridden_serialization_method looks a
+    # strategy up under instance.type and then instance.origin_type (as the serializer does), so `list: ...` overrides every
+    # List[..] position of the class; the model: okey / table_ov
+    O = r.sample(["list", "dict"], r.choice([0, 0, 1, 2])) if origin_ok else []
+    for k in O:
+        for tab in r.sample([dial, conf], r.choice([1, 1, 2])):
+            tab[k] = r.choice([('{"serialize": ser_str, "deserialize": ser_any}', "ORet (Some TStr)"), ("pass_through", "OPass"),
+                               ('{"deserialize": ser_any}', "ODeser"), ('{"serialize": ser_any}', "ORet None")])
     # the winner per key: dialect first, then Config; a table entry without "serialize" is skipped
     for k in K:
         for tab in (dial, conf):
@@ -523,7 +533,7 @@ def m_tables(r):
                 if tab[k][1] != "OPass":
                     serializing.add(k)
                 break
-    return dial, conf, set(K), serializing
+    return dial, conf, set(K) | set(O), serializing
 
 
 def ob(b):
@@ -548,7 +558,7 @@ def m_family(r):
         refs[nm] = set()
         used_alias = set()
         cfg_aliases = {}
-        tabs = m_tables(r)
+        tabs = m_tables(r, origin_ok=not cyclic)
         over = tabs[2] if tabs else set()
         _CUR_OVER.clear()
         _CUR_OVER.update(over)
@@ -815,7 +825,7 @@ def m_cases(ctx: vlib.Ctx, n: int):
 
 
 def coq_part(ctx: vlib.Ctx):
-    br = ctx.theorems("props/C20_schema.vo", THEOREMS + RT_THEOREMS + ["C20_override_noop", "C20_override_covered", "C20_default_value_is_ref_enc", "C20_default_prerendered", "C20_default_scalars"], kernels=["K9"])
+    br = ctx.theorems("props/C20_schema.vo", THEOREMS + RT_THEOREMS + ["C20_override_noop", "C20_override_covered", "C20_override_origin_key", "C20_default_value_is_ref_enc", "C20_default_prerendered", "C20_default_scalars"], kernels=["K9"])
     if br.ok and not ctx.quick():
         rc, out, _ = vlib.run(["timeout", "900", "coqchk", "-silent", "-o"] + vlib.COQ_FLAGS[:9] + ["VerifProps.C20_schema"],
                               cwd=vlib.COQ, timeout=930)
